@@ -26,6 +26,33 @@ def ev(v, size=None):
     return F.enc_varint(v, size)
 
 
+def pick(descs, n, rng):
+    """at most n descriptors, every kind represented before any kind gets a second one"""
+    if n is None or len(descs) <= n:
+        return descs
+    by = {}
+    for d in descs:
+        by.setdefault(d["kind"], []).append(d)
+    for v in by.values():
+        rng.shuffle(v)
+    kinds = sorted(by)
+    rng.shuffle(kinds)
+    out = []
+    rnd = 0
+    while len(out) < n:
+        progressed = False
+        for k in kinds:
+            if rnd < len(by[k]):
+                out.append(by[k][rnd])
+                progressed = True
+                if len(out) >= n:
+                    break
+        if not progressed:
+            break
+        rnd += 1
+    return out
+
+
 # ----------------------------------------------------------------------------- frame specs
 # A frame spec is a list: [name, args...] -> bytes.  Everything numeric so that it is JSON-able.
 
@@ -298,15 +325,28 @@ REPEATABLE = [
 ]
 
 
-def ptypes_for(st):
-    return [p for p in ("initial", "handshake", "0rtt", "1rtt") if st.peer.has(p)]
+def ptypes_for(st, usable_only=False):
+    """packet types the peer holds keys for; usable_only: those the victim can already decrypt"""
+    pts = [p for p in ("initial", "handshake", "0rtt", "1rtt") if st.peer.has(p)]
+    if usable_only:
+        if st.role == "client" and st.name in ("first_flight",):
+            pts = [p for p in pts if p == "initial"]
+        elif st.role == "client" and st.name in ("after_sh", "after_ee", "after_cert", "after_cv"):
+            pts = [p for p in pts if p != "1rtt"]
+        elif st.role == "server" and st.name == "after_ch":
+            pts = [p for p in pts if p != "1rtt"]
+    return pts
 
 
 def enumerate_frames(st, rng, n, part=0, parts=1):
     """descriptors for family 3 (single packets)."""
     cat = frame_catalogue(st.role, rng)
-    pts = ptypes_for(st)
+    pts = ptypes_for(st, usable_only=True)
+    early = [p for p in ptypes_for(st) if p not in pts]
     descs = []
+    for kind, specs in cat[:: 25]:
+        for pt in early:  # keys the victim does not have yet: exercises the key-unavailable path
+            descs.append({"fam": "frames", "kind": "KEY_UNAVAILABLE_" + pt, "pt": pt, "fr": specs})
     for i, (kind, specs) in enumerate(cat):
         for pt in pts:
             descs.append({"fam": "frames", "kind": kind, "pt": pt, "fr": specs})
@@ -349,9 +389,7 @@ def enumerate_frames(st, rng, n, part=0, parts=1):
                 for tl in (1, 100, 1000):
                     descs.append({"fam": "frames", "kind": "HDR_TOKEN", "pt": pt, "fr": [["ping"]], "token": tl})
     descs = [d for i, d in enumerate(descs) if i % parts == part]
-    if n is not None and len(descs) > n:
-        descs = rng.sample(descs, n)
-    return descs
+    return pick(descs, n, rng)
 
 
 def mat_frames(st, d):
@@ -550,25 +588,24 @@ def enumerate_raw(st, rng, n, part=0, parts=1):
                     add("RETRY_VALID_tok%d" % tl, wo + tag)
                 for label, tail in (("notag", b""), ("tag8", bytes(8)), ("tag15", bytes(15)), ("badtag", b"tok" + bytes(16)), ("tagonly", bytes(16))):
                     add("RETRY_" + label, long_header(first, ver, dcid, new_scid, tail))
-    # (f) coalesced mixes of genuine and generated packets
+    # (f) coalesced mixes of genuine and generated packets (genuine part named symbolically)
     junk_long = long_header(0xC0 | (TYPE_CODE[V1]["handshake"] << 4), V1, vcid, peer.scid, ev(30, 2) + _rb(rng, 30))
     junk_short = bytes([0x40]) + vcid + _rb(rng, 30)
-    for g in pend[:3]:
-        add("COALESCE_genuine+junk_long", g + junk_long)
-        add("COALESCE_genuine+junk_short", g + junk_short)
-        add("COALESCE_genuine+random", g + _rb(rng, 50))
-        add("COALESCE_genuine+genuine", g + g)
-        add("COALESCE_junk_long+genuine", junk_long + g)
-        add("COALESCE_vn+genuine", long_header(0x80, 0, vcid, peer.scid, b"") + g)
-        add("COALESCE_genuine+zeros", g + bytes(200))
-        add("GENUINE", g)
+    for gi in range(min(3, len(pend))):
+        nm = "pending%d" % gi
+        for kind, pre, post, twice in (("COALESCE_genuine+junk_long", b"", junk_long, 0), ("COALESCE_genuine+junk_short", b"", junk_short, 0),
+                                       ("COALESCE_genuine+random", b"", _rb(rng, 50), 0), ("COALESCE_genuine+genuine", b"", b"", 1),
+                                       ("COALESCE_junk_long+genuine", junk_long, b"", 0), ("COALESCE_vn+genuine", long_header(0x80, 0, vcid, peer.scid, b""), b"", 0),
+                                       ("COALESCE_genuine+zeros", b"", bytes(200), 0)):
+            descs.append({"fam": "raw", "kind": kind, "hex": "", "src": nm, "pre": pre.hex(), "post": post.hex(), "twice": twice})
     descs2 = [d for i, d in enumerate(descs) if d["kind"] in ("RANDOM", "RANDOM_AFTER_LONG_HDR", "RANDOM_AFTER_SHORT_HDR", "RANDOM_BIG") or i % parts == part]
-    if n is not None and len(descs2) > n:
-        descs2 = rng.sample(descs2, n)
-    return descs2
+    return pick(descs2, n, rng)
 
 
 def mat_raw(st, d):
+    if "src" in d:
+        g = _sources(st).get(d["src"], b"")
+        return [(bytes.fromhex(d["pre"]) + g * (2 if d.get("twice") else 1) + bytes.fromhex(d["post"]), None)]
     return [(bytes.fromhex(d["hex"]), None)]
 
 
@@ -609,76 +646,107 @@ def split_coalesced(dgram):
     return out
 
 
-def enumerate_mut(st, rng, n, part=0, parts=1):
-    descs = []
-    sources = []
+def _sources(st):
+    src = {}
     for i, g in enumerate(st.info.get("pending") or []):
-        sources.append(("pending%d" % i, g))
+        src["pending%d" % i] = g
     for i, g in enumerate((st.info.get("victim_out") or [])[:2]):
-        sources.append(("reflected%d" % i, g))
+        src["reflected%d" % i] = g
     for i, g in enumerate((st.info.get("first") or [])[:1]):
-        sources.append(("first%d" % i, g))
+        src["first%d" % i] = g
+    return src
 
-    def add(kind, data, **kw):
-        descs.append(dict({"fam": "mut", "kind": kind, "hex": data.hex()}, **kw))
+
+def enumerate_mut(st, rng, n, part=0, parts=1):
+    """Descriptors name their genuine source datagram symbolically (the bytes depend on the
+    connection's keys), so that a replay on a freshly prepared state mutates *its* datagrams."""
+    descs = []
+    sources = sorted(_sources(st).items())
+
+    def add(kind, src, *m, **kw):
+        descs.append(dict({"fam": "mut", "kind": kind, "src": src, "m": list(m)}, **kw))
 
     for name, g in sources:
         src = name.rstrip("0123456789")
         L = len(g)
-        # byte flips: every position of the (unprotected + protected) header region, sampled elsewhere
         positions = list(range(min(L, 72))) + sorted(rng.sample(range(min(L, 72), L), min(40, max(0, L - 72))))
         for pos in positions:
             for x in (0x01, 0x80, 0xFF, 0x40):
-                b = bytearray(g)
-                b[pos] ^= x
-                add("FLIP_%s_%s" % (src, "hdr" if pos < 72 else "body"), bytes(b))
-        # truncations
+                add("FLIP_%s_%s" % (src, "hdr" if pos < 72 else "body"), name, "flip", pos, x)
         cuts = list(range(0, min(L, 90))) + sorted(rng.sample(range(min(L, 90), L), min(60, max(0, L - 90))))
         for c in cuts:
-            add("TRUNCATE_" + src, g[:c])
+            add("TRUNCATE_" + src, name, "trunc", c)
         for ext in (1, 16, 300):
-            add("EXTEND_" + src, g + _rb(rng, ext))
-            add("EXTEND_ZERO_" + src, g + bytes(ext))
-        add("PREPEND_" + src, _rb(rng, 5) + g)
-        add("DUP_" + src, g, times=3)
+            add("EXTEND_" + src, name, "extend", ext, rng.randrange(1 << 30))
+            add("EXTEND_ZERO_" + src, name, "extend", ext, None)
+        add("PREPEND_" + src, name, "prepend", 5, rng.randrange(1 << 30))
+        add("DUP_" + src, name, "times", 3)
         pk = split_coalesced(g)
         if len(pk) > 1:
-            add("REORDER_PACKETS_" + src, b"".join(reversed(pk)))
-            for i, p in enumerate(pk):
-                add("SINGLE_PACKET_" + src, p)
-                add("DROP_PACKET_" + src, b"".join(q for j, q in enumerate(pk) if j != i))
-        # zero out / randomise fields in place
+            add("REORDER_PACKETS_" + src, name, "reorder")
+            for i in range(len(pk)):
+                add("SINGLE_PACKET_" + src, name, "single", i)
+                add("DROP_PACKET_" + src, name, "drop", i)
         for a, bnd in ((1, 5), (5, 6), (6, 14), (0, 1)):
-            b = bytearray(g)
-            b[a:bnd] = _rb(rng, bnd - a)
-            add("FIELD_RANDOM_%s_%d" % (src, a), bytes(b))
-    # splices and re-orderings between different genuine datagrams
+            add("FIELD_RANDOM_%s_%d" % (src, a), name, "field", a, bnd, rng.randrange(1 << 30))
     for (n1, g1) in sources:
         for (n2, g2) in sources:
             if n1 == n2:
                 continue
             for _ in range(6):
-                i = rng.randrange(0, len(g1) + 1)
-                j = rng.randrange(0, len(g2) + 1)
-                add("SPLICE", g1[:i] + g2[j:])
-            add("CONCAT", g1 + g2)
-    pend = [g for nme, g in sources if nme.startswith("pending")]
+                add("SPLICE", n1, "splice", n2, rng.randrange(0, len(g1) + 1), rng.randrange(0, len(g2) + 1))
+            add("CONCAT", n1, "splice", n2, len(g1), 0)
+    pend = [nme for nme, g in sources if nme.startswith("pending")]
     if len(pend) > 1:
-        descs.append({"fam": "mut", "kind": "REORDER_DATAGRAMS", "seq": [g.hex() for g in reversed(pend)]})
-        descs.append({"fam": "mut", "kind": "DUPLICATE_DATAGRAMS", "seq": [g.hex() for g in pend + pend]})
+        descs.append({"fam": "mut", "kind": "REORDER_DATAGRAMS", "seq": list(reversed(pend))})
+        descs.append({"fam": "mut", "kind": "DUPLICATE_DATAGRAMS", "seq": pend + pend})
     if pend:
-        descs.append({"fam": "mut", "kind": "GENUINE_FROM_OTHER_ADDR", "seq": [g.hex() for g in pend], "addr2": 1})
+        descs.append({"fam": "mut", "kind": "GENUINE_FROM_OTHER_ADDR", "seq": pend, "addr2": 1})
+        descs.append({"fam": "mut", "kind": "GENUINE", "seq": pend})
     descs = [d for i, d in enumerate(descs) if i % parts == part]
-    if n is not None and len(descs) > n:
-        descs = rng.sample(descs, n)
-    return descs
+    return pick(descs, n, rng)
 
 
 def mat_mut(st, d):
     addr = CLIENT_ADDR2 if d.get("addr2") else None
+    src = _sources(st)
     if "seq" in d:
-        return [(bytes.fromhex(h), addr) for h in d["seq"]]
-    return [(bytes.fromhex(d["hex"]), addr)] * d.get("times", 1)
+        return [(src[nme], addr) for nme in d["seq"] if nme in src]
+    g = src.get(d["src"])
+    if g is None:
+        return []
+    m = d["m"]
+    op = m[0]
+    times = 1
+    if op == "flip":
+        b = bytearray(g)
+        if b:
+            b[m[1] % len(b)] ^= m[2]
+        g = bytes(b)
+    elif op == "trunc":
+        g = g[: m[1]]
+    elif op == "extend":
+        g = g + (bytes(m[1]) if m[2] is None else _rb(random.Random(m[2]), m[1]))
+    elif op == "prepend":
+        g = _rb(random.Random(m[2]), m[1]) + g
+    elif op == "times":
+        times = m[1]
+    elif op in ("reorder", "single", "drop"):
+        pk = split_coalesced(g)
+        if op == "reorder":
+            g = b"".join(reversed(pk))
+        elif op == "single":
+            g = pk[m[1] % len(pk)]
+        else:
+            g = b"".join(q for j, q in enumerate(pk) if j != m[1] % len(pk))
+    elif op == "field":
+        b = bytearray(g)
+        b[m[1]: m[2]] = _rb(random.Random(m[3]), m[2] - m[1])
+        g = bytes(b)
+    elif op == "splice":
+        g2 = src.get(m[1], b"")
+        g = g[: m[2]] + g2[m[3]:]
+    return [(g, addr)] * times
 
 
 # ----------------------------------------------------------------------------- family 4: TLS messages
@@ -782,9 +850,7 @@ def enumerate_tls(st, rng, n, part=0, parts=1):
             for label, op in T.cr_catalogue():
                 add("POST_CR", label, op)
     descs = [d for i, d in enumerate(descs) if i % parts == part]
-    if n is not None and len(descs) > n:
-        descs = rng.sample(descs, n)
-    return descs
+    return pick(descs, n, rng)
 
 
 def _chunks(raw, cuts):
@@ -947,9 +1013,7 @@ def enumerate_hist(st, rng, n, part=0, parts=1):
         add("INITIAL_ACK_ONLY")
         add("INITIAL_CLOSE_FIRST")
     descs = [d for i, d in enumerate(descs) if i % parts == part]
-    if n is not None and len(descs) > n:
-        descs = rng.sample(descs, n)
-    return descs
+    return pick(descs, n, rng)
 
 
 class Script:
@@ -975,6 +1039,7 @@ def mat_hist(st, d):
         return out
     if k == "NCID_F4_OUT_OF_ORDER_THEN_SWITCH":
         n0 = 20
+        out.append((peer.packet("1rtt", build_frame(["new_cid", n0, n0, 8, 8, 16, 0xA0])), None))  # uses up all spares
         out.append((peer.packet("1rtt", build_frame(["new_cid", n0 + 2, n0, 8, 8, 16, 0xA2])), None))
         out.append((peer.packet("1rtt", build_frame(["new_cid", n0 + 1, n0, 8, 8, 16, 0xA1])), None))
         out.append((peer.packet("1rtt", build_frame(["new_cid", n0 + 1, n0 + 1, 8, 8, 16, 0xA1])), None))
